@@ -5,6 +5,30 @@ NOTES = ("Machine-checked proof in Lean 4 about a hand-written model that mirror
          "implementation's traces. See DESIGN.md.")
 NOT_YET = {}
 TEXT = {
+ "C19": {
+  "level": "Theorem C19_holds: every model history is accepted by the C19 monitor - all five reclamation clauses (success sweep, failed patch, rolled-back patch, "
+           "superseded pending patch, release change) proved for every reachable and unreachable disk the call may start from, arbitrary histories incl. damage. "
+           "The same monitor runs on the real library's traces.",
+  "design_ref": "DESIGN.md section 3, C19",
+  "note": "Lean kernel; model/code correspondence (directory listing with contents after every call) sampled by this run's campaign.",
+  "technique": "Lean 4 theorem (per-call case analysis over all states, lifted over histories) + differential correspondence check",
+ },
+ "C08": {
+  "level": "Theorem C08_holds: every model history is accepted by the C08 monitor - the first call that loads state written for another release (or unreadable) ends "
+           "with no patch recorded, no ban, no artifact, no queued event and the state re-keyed, for arbitrary old state and version strings; proved by showing such a call "
+           "acts exactly as on the clean disk of the new release (opDisk_unsettled, opDisk_cleanDisk).",
+  "design_ref": "DESIGN.md section 3, C08",
+  "note": "Lean kernel; correspondence sampled by this run's campaign (release-change heavy profile).",
+  "technique": "Lean 4 theorem (simulation: unsettled disk behaves as clean disk) + differential correspondence check",
+ },
+ "C17": {
+  "level": "Theorem C17_holds: every model history is accepted by the C17 monitor - install-success event exactly when the booted patch differs from the last good one, "
+           "exactly one queued failure event per reported/crash-detected failure, update sends the first three queued events before the check and empties the queue, "
+           "one download event after and only after an install, fields as configured. The same monitor runs on the real library's traces (ordered network log).",
+  "design_ref": "DESIGN.md section 3, C17",
+  "note": "Lean kernel; correspondence incl. the ordered stream of event/check/download callbacks, sampled by this run's campaign.",
+  "technique": "Lean 4 theorem (per-call characterisation of state.json and the emitted actions) + differential correspondence check",
+ },
  "C10": {
   "level": "Theorem C10_holds: for every history the C10 monitor accepts the model trace - after a check or update whose response lists n as rolled back, "
            "n has no artifact and is not the next-boot patch after that call and every later one, until an update installs n again (or the release changes / "
